@@ -876,8 +876,10 @@ theorem inv_copyBackOne {c : Ctx} {vs : List Val} (h : Inv c vs) (e : Expr) (av 
     split
     · exact inv_congr (c := c) rfl rfl rfl rfl rfl h
     · split
-      · exact inv_congr (c := c) rfl rfl rfl rfl rfl h
-      · exact inv_setRec0 h _
+      · exact h
+      · split
+        · exact inv_congr (c := c) rfl rfl rfl rfl rfl h
+        · exact inv_setRec0 h _
   | nr => exact h
   | lit s => exact inv_congr (c := c) rfl rfl rfl rfl rfl h
   | app e s => exact inv_congr (c := c) rfl rfl rfl rfl rfl h
